@@ -1,7 +1,7 @@
 (** C08 — An accepted field value can never inject fields or split the paragraph.
     Only statements; every proof is [exact <lemma>] or a short composition
     (lemmas in Deb822/InjectStr.v, InjectBrk.v, InjectProofs.v, InjectProofs2.v,
-    InjectProofs3.v).
+    InjectProofs3.v, InjectProofs4.v).
 
     Model: Deb822/Model.v — the functions [agree] of Deb822/InjectCheck.v runs:
     [setitem] (= [validate_input] then [dict_set]), [dump], [iter_paragraphs].
@@ -22,7 +22,7 @@
 From Coq Require Import String.
 From Verif Require Import Lib.Base Lib.Dec Lib.PyStr Gen.PyChars
   Deb822.Model Deb822.Spec Deb822.InjectSpec Deb822.InjectStr Deb822.InjectBrk Deb822.InjectProofs
-  Deb822.InjectProofs2 Deb822.InjectProofs3 Deb822.InjectCheck.
+  Deb822.InjectProofs2 Deb822.InjectProofs3 Deb822.InjectCheck Deb822.InjectProofs4.
 
 (** 1. accepted_value_safe_ws_false: a non-empty paragraph over the domain, all
        of whose values validate_input accepts, dumped and read back with
@@ -35,10 +35,7 @@ Theorem C08_accepted_value_safe_ws_false :
     d <> [] ->
     iter_paragraphs CDeb822 false (InStr (dump d)) = Ok [reread_para d]
     /\ keys (reread_para d) = keys d.
-Proof.
-  intros d Hd Ha Hne. split; [|exact (names_reread d)].
-  apply reread_instr; [exact Hd|exact Ha|exact Hne|discriminate].
-Qed.
+Proof. intros d Hd Ha Hne. apply accepted_safe_str; auto; discriminate. Qed.
 
 (** 2. accepted_value_safe_default: the same with the default strictness
        (whitespace-only lines end a paragraph) provided no continuation line of
@@ -51,10 +48,7 @@ Theorem C08_accepted_value_safe_default :
     para_no_blank_cont d = true ->
     iter_paragraphs CDeb822 true (InStr (dump d)) = Ok [reread_para d]
     /\ keys (reread_para d) = keys d.
-Proof.
-  intros d Hd Ha Hne Hb. split; [|exact (names_reread d)].
-  apply reread_instr; [exact Hd|exact Ha|exact Hne|intros _; exact Hb].
-Qed.
+Proof. intros d Hd Ha Hne Hb. apply accepted_safe_str; auto. Qed.
 
 (** 1f / 2f. The same when the dump is read back through a file object
        (io.StringIO: lines end at LF only). *)
@@ -65,10 +59,7 @@ Theorem C08_accepted_value_safe_ws_false_file :
     d <> [] ->
     iter_paragraphs CDeb822 false (InFile (dump d)) = Ok [reread_para_file d]
     /\ keys (reread_para_file d) = keys d.
-Proof.
-  intros d Hd Ha Hne. split; [|exact (names_reread_file d)].
-  apply reread_infile; [exact Hd|exact Ha|exact Hne|discriminate].
-Qed.
+Proof. intros d Hd Ha Hne. apply accepted_safe_file; auto; discriminate. Qed.
 
 Theorem C08_accepted_value_safe_default_file :
   forall d,
@@ -78,10 +69,7 @@ Theorem C08_accepted_value_safe_default_file :
     para_no_blank_cont d = true ->
     iter_paragraphs CDeb822 true (InFile (dump d)) = Ok [reread_para_file d]
     /\ keys (reread_para_file d) = keys d.
-Proof.
-  intros d Hd Ha Hne Hb. split; [|exact (names_reread_file d)].
-  apply reread_infile; [exact Hd|exact Ha|exact Hne|intros _; exact Hb].
-Qed.
+Proof. intros d Hd Ha Hne Hb. apply accepted_safe_file; auto. Qed.
 
 (** 3. The property as [holds] phrases it, for an assignment: if p[k] = v is
        accepted on a paragraph of the domain, the mapping afterwards is the
@@ -100,21 +88,7 @@ Theorem C08_setitem_accepted_safe :
     /\ (para_no_blank_cont d' = true ->
         one_para_with_names (names d') (iter_paragraphs CDeb822 true (InStr (dump d'))) = true
         /\ one_para_with_names (names d') (iter_paragraphs CDeb822 true (InFile (dump d'))) = true).
-Proof.
-  intros d k v d' Hd Ha Hk Hv Hs.
-  destruct (setitem_keeps_dom d k v d' Hd Ha Hk Hv Hs) as (Hd' & Ha' & Hne).
-  split.
-  { unfold setitem in Hs. destruct (validate_input v); [|discriminate]. now injection Hs as <-. }
-  assert (E1 : forall d0, names d0 = names d' ->
-               one_para_with_names (names d') (Ok [d0]) = true).
-  { intros d0 E. cbn [one_para_with_names]. rewrite E. now apply strs_eqb_eq. }
-  split; [|split].
-  - rewrite (reread_instr false d' Hd' Ha' Hne) by discriminate. apply E1, names_reread.
-  - rewrite (reread_infile false d' Hd' Ha' Hne) by discriminate. apply E1, names_reread_file.
-  - intros Hb. split.
-    + rewrite (reread_instr true d' Hd' Ha' Hne (fun _ => Hb)). apply E1, names_reread.
-    + rewrite (reread_infile true d' Hd' Ha' Hne (fun _ => Hb)). apply E1, names_reread_file.
-Qed.
+Proof. exact setitem_accepted_safe. Qed.
 
 (** 4. rejected_unchanged: a value that ends in LF, has an empty continuation
        line, or a continuation line not starting with space/tab is refused with
@@ -126,10 +100,7 @@ Theorem C08_rejected_unchanged :
     validate_input v = Err ValueError
     /\ setitem d k v = Err ValueError
     /\ model_step d (k, v) = (Some ValueError, d).
-Proof.
-  intros d k v Hd Hr. destruct (rejected_valueerror d k v Hd Hr) as [H1 H2].
-  repeat split; try assumption. unfold model_step. cbn [fst snd]. now rewrite H2.
-Qed.
+Proof. exact rejected_unchanged. Qed.
 
 (** 4'. ... and nothing else is refused: over the alphabet, validate_input is
         exactly the Spec's three reasons; an accepted assignment yields the
@@ -166,6 +137,24 @@ Theorem C08_cont_lines_are_splitlines :
   forall v, c08_dom v = true -> cont_lines v = tl (splitlines py_islinebreak false v).
 Proof. exact cont_lines_vlines. Qed.
 
+(** 6'. The bytes form (code points of the UTF-8 decoding, see Model.v): for a
+        paragraph of the domain bytes.splitlines cuts the dump exactly where
+        str.splitlines does, so 1 and 2 hold for it verbatim. *)
+Theorem C08_bytes_form_same :
+  forall ws d, para_dom d = true ->
+    iter_paragraphs CDeb822 ws (InBytes (dump d)) = iter_paragraphs CDeb822 ws (InStr (dump d)).
+Proof. exact bytes_form_same. Qed.
+
+(** 7. The check itself: on EVERY case (any sequence of assignments, names and
+       values inside or outside the domain), if the observations are what the
+       model computes ([agree]: outcomes, recorded states, dump, the four
+       re-reads), then the property as the check judges it ([holds]) is true.
+       So the model satisfies [holds] universally, and a failing [holds] on the
+       implementation always comes with a failing [agree]. *)
+Theorem C08_agree_implies_holds :
+  forall c : InjectCheck.case, InjectCheck.agree c = true -> InjectCheck.holds c = true.
+Proof. exact agree_holds. Qed.
+
 (** Non-vacuity: a paragraph with a multi-line value containing a colon line,
     a CR LF, a CR, a '#' line, a PGP armour line and a whitespace-only line meets
     the hypotheses of 1; it does not meet the extra hypothesis of 2, and the
@@ -201,6 +190,23 @@ Example C08_nonvacuous_rejected :
   /\ spec_rejects (dec "x\00000a") = true.
 Proof. vm_compute. repeat split. Qed.
 
+(** a real case (observations copied from a run of the implementation): the
+    hypothesis of 7 is satisfiable, with a refused assignment in the middle and
+    a final paragraph that the default strictness cuts short *)
+Example C08_nonvacuous_case :
+  let c := InjectCheck.mk
+    [("A", "x"); ("a", "1\00000d z\00000d"); ("Bad", "1.0\00000aInjected: yes"); ("B", "y\00000a \00000a w")]
+    [None; None; Some ValueError; None]
+    [None; (Some [("A", "1\00000d z\00000d")]); (Some [("A", "1\00000d z\00000d")]);
+     (Some [("A", "1\00000d z\00000d"); ("B", "y\00000a \00000a w")])]
+    "A: 1\00000d z\00000d\00000aB: y\00000a \00000a w\00000a"
+    (Ok [[("A", "1\00000a z"); ("B", "y\00000a w")]])
+    (Some (Ok [[("A", "1\00000d z"); ("B", "y\00000a w")]]))
+    (Some (Ok [[("A", "1\00000a z"); ("B", "y")]]))
+    (Some (Ok [[("A", "1\00000d z"); ("B", "y")]])) in
+  InjectCheck.agree c = true /\ InjectCheck.holds c = true.
+Proof. vm_compute. split; reflexivity. Qed.
+
 Print Assumptions C08_accepted_value_safe_ws_false.
 Print Assumptions C08_accepted_value_safe_default.
 Print Assumptions C08_accepted_value_safe_ws_false_file.
@@ -212,3 +218,5 @@ Print Assumptions C08_accepted_is_spec_set.
 Print Assumptions C08_validator_matches_parser.
 Print Assumptions C08_validator_matches_parser_value.
 Print Assumptions C08_cont_lines_are_splitlines.
+Print Assumptions C08_bytes_form_same.
+Print Assumptions C08_agree_implies_holds.
